@@ -290,3 +290,23 @@ def c_loopcall(n: size, m: size, flag: bool, a: f32, A: f32[m, n]):
         scale_n(n, A[j, 0:n])
         CfgN.cnt = 1
 ''')
+
+# a configuration write inside a loop that runs exactly once: "the loop leaves the field unchanged" must not be concluded from the iterations after the first
+# (seeded change C10_1 dropped i == lo from the loop-invariance test of globenv)
+add("c_once", '''
+@config
+class CfgO:
+    flag: bool
+    k: index
+    s: f32
+
+@proc
+def c_once(n: size, a: f32, x: f32[n + 2], y: f32[n]):
+    for i in seq(0, 1):
+        CfgO.flag = True
+        CfgO.s = a
+    if CfgO.flag:
+        x[0] = CfgO.s
+    for i in seq(0, n):
+        y[i] = CfgO.s + 1.0
+''')
